@@ -21,8 +21,9 @@ PROPS = {
         "technique": "deterministic simulation: seeded request histories, scheduler-chosen completion order of sub-requests and cache operations, "
                      "differential against the same middleware chain built without the results cache",
         "design_ref": "DESIGN.md §6 C42, §6b C42",
-        "quick": {"runs": 4000, "seconds": 60},
-        "thorough": {"runs": 60000, "seconds": 800},
+        "quick": {"runs": 6000, "seconds": 40},
+        "thorough": {"runs": 200000, "seconds": 780},
+        "env": {"VERIF_SHRINK_SECONDS": "20"},
         "rule": "one evaluation = one generated frontend configuration (split interval static/dynamic, freshness, parallelism, retries, "
                 "compression, PromQL shards) and 1-3 tenants each issuing 1-8 range queries from 1-2 concurrent clients; every response "
                 "obtained through the cache is compared with the response of the same chain without cache. distinct = distinct event-log "
@@ -43,8 +44,9 @@ PROPS = {
                      "single-parameter variants) sent through the real tripperwares over a shared simulated cache, monitors at the cache seam, "
                      "on the real key generator (direct) and on response contents",
         "design_ref": "DESIGN.md §6 C43, §8.6",
-        "quick": {"runs": 4000, "seconds": 50},
-        "thorough": {"runs": 60000, "seconds": 700},
+        "quick": {"runs": 20000, "seconds": 40},
+        "thorough": {"runs": 400000, "seconds": 780},
+        "env": {"VERIF_SHRINK_SECONDS": "20"},
         "crash_is_violation": True,
         "rule": "one evaluation = 2-4 tenants, 2-10 range/label-names/label-values/series requests from 1-3 concurrent clients through the "
                 "query-range and labels tripperwares with results caches (shared or separate backend), plus 0-12 further requests given "
@@ -67,8 +69,8 @@ PROPS = {
                      "real Prometheus PromQL engine whose Select filters series through the real storepb.ShardMatcher; shard sub-requests "
                      "complete in scheduler-chosen order and may fail and be retried; differential against the same chain with sharding off",
         "design_ref": "DESIGN.md §6 C44, §6b C44",
-        "quick": {"runs": 6000, "seconds": 50},
-        "thorough": {"runs": 100000, "seconds": 700},
+        "quick": {"runs": 40000, "seconds": 45},
+        "thorough": {"runs": 900000, "seconds": 780},
         "rule": "one evaluation = one series set (3-12 series of 4 metrics incl. a classic histogram, labels a,b,c,le) and 1-3 generated PromQL "
                 "programs (aggregations by/without, rate/increase, binary operators with on/ignoring/group_left, label_replace/label_join, "
                 "histogram_quantile; depth <= 3), 1-5 shards, optional split interval. Checked per program the analyzer declares shardable: merged "
